@@ -1,8 +1,698 @@
-//! C15 — not built yet.
+//! C15 — yq never emits YAML it cannot read back (DESIGN §4 C15). Black-box, engine E2.
+//!
+//! One case = (G-yaml stream, write-fragment program, `-I n`). Three spawns:
+//!
+//! ```text
+//! Y = succinctly yq -I n --from-file prog doc.yaml          (YAML, the subject)
+//! J = succinctly yq -o json -I0 --from-file prog doc.yaml   (what the same run prints as JSON)
+//! R = succinctly yq -o json -I0 . Y.yaml                    (Y read back)
+//! ```
+//!
+//! Oracle (metamorphic, derived from the statement): exit(Y) == exit(J); when both are 0 and
+//! every value of J is a mapping or sequence (a root scalar is printed unwrapped by the
+//! documented `-r` default and is not meant to be re-read): R succeeds and
+//! `values(R) == values(J)` under O-jsonval (numbers as doubles, object fields in order).
+//! `-I 8` is outside the accepted 0..=7: both runs must fail with the same usage error.
+//! Alias soundness is read off Y with the library (`YamlIndex::build(Y)` must succeed; every
+//! alias node has a target, in the same document, at a smaller byte offset, whose JSON value
+//! equals the value J prints at the alias's path). Exit status 101 / death by signal in any
+//! of the three runs is a violation (`C15/crash/...`); a watchdog timeout discards the case.
+//!
+//! Sub-checks
+//! * `reread` — the search described above, G-yaml `full()` minus the trigger shapes of the
+//!   open *loader* findings (C14's business), programs from `gen::yqprog::gen_write`.
+//!   Shapes of C15's own open findings are avoided by construction while they are listed
+//!   as `known` (the flags are derived from `known_findings.json`, so a finding that becomes
+//!   `fixed` is generated again automatically).
+//! * `open-finding-shapes` — the same search with nothing of C15's own avoided: every
+//!   failure there must carry a listed signature (counted), anything else is a violation.
+//!
+//! Structured replays: `{"input": {"yaml" | "yaml_hex", "program", "indent"}}`.
+use crate::cli;
 use crate::engine::*;
+use crate::gen::json::{j_eq, to_compact, J};
+use crate::gen::yaml::{self as gy, Seg, YOpts, YStrings, Y};
+use crate::gen::yqprog::{self, WriteProg};
+use crate::oracle::jsonval;
+use serde_json::{json, Value};
+use std::sync::atomic::{AtomicU64, Ordering};
+use succinctly::yaml::{YamlCursor, YamlIndex, YamlValue};
 
-pub const RULE: &str = "not built";
+pub const RULE: &str = "G-yaml streams (1-2 documents, anchors/aliases, comments, block scalars, quoted and ambiguous-looking strings, LF/CRLF/CR) x write-fragment programs (identity, navigation, =, |=, +=, del, `. * {..}`, `.p *= .q`, //=, pipelines of these) whose paths come from the document (anchored nodes, aliases, nodes inside aliased collections, parents of block scalars, new keys, appended indices, missing paths) x -I 0..=7 (and the rejected 8). Oracle: the YAML output read back by `yq -o json .` equals the JSON output of the same run (O-jsonval values), equal exit statuses, alias soundness read with the library. Non-trivial: a write program and (document has an anchor/alias or a block scalar or a quoted ambiguous-looking string); distinct by hash(document text, program, indent).";
+
+static TIMEOUTS: AtomicU64 = AtomicU64::new(0);
+
+/// Signatures of C15's own findings (see known_findings.json); the generator consults
+/// `Ctx::is_known` for each to decide what to avoid.
+const SIG_I0: &str = "C15/reread-differs/I0-only";
+
+#[derive(Clone, Debug)]
+pub struct Case {
+    pub yaml: Vec<u8>,
+    pub program: String,
+    pub indent: u8,
+}
+
+fn trunc(s: &str, n: usize) -> String {
+    if s.chars().count() > n {
+        format!("{}...", s.chars().take(n).collect::<String>())
+    } else {
+        s.to_string()
+    }
+}
+
+/// the first line of stderr that carries the message (no backtrace, no path noise)
+fn err_head(o: &cli::CliOut) -> String {
+    let s = o.stderr_str();
+    trunc(s.lines().find(|l| !l.trim().is_empty()).unwrap_or(""), 200)
+}
+
+/// digits → N, quoted text → Q: a stable shape of an error message
+fn err_shape(msg: &str) -> String {
+    let mut out = String::new();
+    let mut last_n = false;
+    for c in msg.chars() {
+        if c.is_ascii_digit() {
+            if !last_n {
+                out.push('N');
+            }
+            last_n = true;
+        } else {
+            last_n = false;
+            out.push(c);
+        }
+    }
+    // cut at the file name / offending text
+    let out = out.split(" in /").next().unwrap_or("").to_string();
+    trunc(&out, 80)
+}
+
+// ---------------------------------------------------------------- classification of strings
+
+/// Why would a YAML emitter have to quote `s`? First matching reason, most specific first.
+/// Used only to give failures a narrow, stable signature.
+pub fn str_class(s: &str, in_flow_hint: bool) -> &'static str {
+    if s.is_empty() {
+        return "empty";
+    }
+    let cs: Vec<char> = s.chars().collect();
+    let first = cs[0];
+    let last = cs[cs.len() - 1];
+    if cs.iter().any(|&c| c == '\n' || c == '\r') {
+        return "line-break";
+    }
+    if cs.iter().any(|&c| (c as u32) < 0x20 && c != '\t' || c as u32 == 0x7f) {
+        return "c0-control";
+    }
+    if cs.iter().any(|&c| matches!(c as u32, 0x80..=0x9f | 0x2028 | 0x2029 | 0xfeff | 0xfffe | 0xffff)) {
+        return "c1-or-unicode-break";
+    }
+    if first == ' ' {
+        return "leading-space";
+    }
+    if last == ' ' {
+        return "trailing-space";
+    }
+    if first == '\t' || last == '\t' {
+        return "edge-tab";
+    }
+    if cs.contains(&'\t') {
+        return "inner-tab";
+    }
+    let l = s.to_ascii_lowercase();
+    if matches!(l.as_str(), "null" | "~" | "true" | "false") {
+        return "null-bool-word";
+    }
+    let unsigned = l.trim_start_matches(['+', '-']);
+    if unsigned.starts_with("0x") && unsigned.len() > 2 && unsigned[2..].chars().all(|c| c.is_ascii_hexdigit()) {
+        return "hex-int";
+    }
+    if unsigned.starts_with("0o") && unsigned.len() > 2 && unsigned[2..].chars().all(|c| ('0'..='7').contains(&c)) {
+        return "octal-int";
+    }
+    if matches!(unsigned, ".inf" | ".nan") {
+        return "inf-nan";
+    }
+    if s.parse::<f64>().is_ok() || (unsigned.chars().any(|c| c.is_ascii_digit()) && unsigned.chars().all(|c| c.is_ascii_digit() || "._eE+-".contains(c))) {
+        return "number-like";
+    }
+    if s.contains(": ") || last == ':' {
+        return "colon-space";
+    }
+    if s.contains(" #") {
+        return "space-hash";
+    }
+    if "-?:".contains(first) && (cs.len() == 1 || cs[1] == ' ') {
+        return "block-indicator-start";
+    }
+    if ",[]{}#&*!|>'\"%@`".contains(first) {
+        return "indicator-start";
+    }
+    if s == "---" || s == "..." || s.starts_with("--- ") || s.starts_with("... ") {
+        return "document-marker";
+    }
+    if cs.iter().any(|&c| ",[]{}".contains(c)) {
+        return if in_flow_hint { "flow-indicator-inside" } else { "flow-indicator-inside" };
+    }
+    if s == "<<" {
+        return "merge-key";
+    }
+    if cs.iter().any(|&c| c == ':' || c == '#') {
+        return "colon-or-hash-inside";
+    }
+    "other"
+}
+
+// ---------------------------------------------------------------- value diff
+
+#[derive(Debug)]
+struct Diff {
+    path: String,
+    /// signature fragment
+    what: String,
+    expected: String,
+    actual: String,
+}
+
+fn jpath(p: &[Seg]) -> String {
+    gy::path_str(p)
+}
+
+fn diff(a: &J, b: &J, p: &mut Vec<Seg>) -> Option<Diff> {
+    match (a, b) {
+        (J::Arr(x), J::Arr(y)) => {
+            for (i, (u, v)) in x.iter().zip(y.iter()).enumerate() {
+                p.push(Seg::Idx(i));
+                let d = diff(u, v, p);
+                p.pop();
+                if d.is_some() {
+                    return d;
+                }
+            }
+            if x.len() != y.len() {
+                return Some(Diff { path: jpath(p), what: "array-length".into(), expected: x.len().to_string(), actual: y.len().to_string() });
+            }
+            None
+        }
+        (J::Obj(x), J::Obj(y)) => {
+            for ((k1, u), (k2, v)) in x.iter().zip(y.iter()) {
+                if k1 != k2 {
+                    return Some(Diff { path: jpath(p), what: format!("key:{}", str_class(k1, false)), expected: format!("{:?}", k1), actual: format!("{:?}", k2) });
+                }
+                p.push(Seg::Key(k1.clone()));
+                let d = diff(u, v, p);
+                p.pop();
+                if d.is_some() {
+                    return d;
+                }
+            }
+            if x.len() != y.len() {
+                let (e, a) = (x.get(y.len()).map(|e| e.0.clone()), y.get(x.len()).map(|e| e.0.clone()));
+                let what = match &e {
+                    Some(k) => format!("key:{}", str_class(k, false)),
+                    None => "extra-key".to_string(),
+                };
+                return Some(Diff { path: jpath(p), what, expected: format!("{:?}", e), actual: format!("{:?}", a) });
+            }
+            None
+        }
+        _ => {
+            if j_eq(a, b) {
+                return None;
+            }
+            let what = match a {
+                J::Str(s) => format!("str:{}", str_class(s, false)),
+                _ => format!("{}-reads-as-{}", a.kind(), b.kind()),
+            };
+            Some(Diff { path: jpath(p), what, expected: trunc(&to_compact(a), 200), actual: trunc(&to_compact(b), 200) })
+        }
+    }
+}
+
+// ---------------------------------------------------------------- alias soundness (library)
+
+struct AliasStats {
+    aliases: u32,
+    anchors: u32,
+}
+
+fn walk_alias(c: YamlCursor<'_>, j: Option<&J>, p: &mut Vec<Seg>, st: &mut AliasStats, depth: usize) -> Result<(), Fail> {
+    if depth > 200 {
+        return Ok(());
+    }
+    if c.anchor().is_some() {
+        st.anchors += 1;
+    }
+    match c.value() {
+        YamlValue::Alias { target, anchor_name } => {
+            st.aliases += 1;
+            let t = match target {
+                Some(t) => t,
+                None => fail!("C15/alias-soundness/unresolved", {"path": jpath(p), "anchor": anchor_name.to_string()}),
+            };
+            let (tp, cp) = (t.text_position(), c.text_position());
+            match (tp, cp) {
+                (Some(tp), Some(cp)) if tp < cp => {}
+                _ => fail!("C15/alias-soundness/anchor-not-before-alias", {"path": jpath(p), "anchor": anchor_name.to_string(), "anchor_offset": format!("{:?}", tp), "alias_offset": format!("{:?}", cp)}),
+            }
+            if t.document_index() != c.document_index() {
+                fail!("C15/alias-soundness/anchor-in-other-document", {"path": jpath(p), "anchor": anchor_name.to_string()});
+            }
+            if let Some(j) = j {
+                let tj = t.to_json();
+                match jsonval::parse_one(tj.as_bytes()) {
+                    Ok(tv) if j_eq(&tv, j) => {}
+                    Ok(tv) => fail!("C15/alias-soundness/anchor-value-differs", {"path": jpath(p), "anchor": anchor_name.to_string(), "anchor_value": trunc(&to_compact(&tv), 200), "json_run_value": trunc(&to_compact(j), 200)}),
+                    Err(e) => fail!("C15/alias-soundness/anchor-value-unreadable", {"path": jpath(p), "json": trunc(&tj, 200), "error": e.msg}),
+                }
+            }
+        }
+        YamlValue::Mapping(f) => {
+            let mut f = f;
+            let mut i = 0usize;
+            while let Some((field, rest)) = f.uncons() {
+                let k = field.key().key_string().into_owned();
+                let sub = match j {
+                    Some(J::Obj(o)) => o.get(i).filter(|e| e.0 == k).map(|e| &e.1),
+                    _ => None,
+                };
+                p.push(Seg::Key(k));
+                walk_alias(field.value_cursor(), sub, p, st, depth + 1)?;
+                p.pop();
+                i += 1;
+                f = rest;
+            }
+        }
+        YamlValue::Sequence(el) => {
+            let mut el = el;
+            let mut i = 0usize;
+            while let Some((x, rest)) = el.uncons_cursor() {
+                let sub = match j {
+                    Some(J::Arr(a)) => a.get(i),
+                    _ => None,
+                };
+                p.push(Seg::Idx(i));
+                walk_alias(x, sub, p, st, depth + 1)?;
+                p.pop();
+                i += 1;
+                el = rest;
+            }
+        }
+        _ => {}
+    }
+    Ok(())
+}
+
+fn alias_soundness(ytext: &[u8], jvals: &[J]) -> Result<AliasStats, Fail> {
+    let mut st = AliasStats { aliases: 0, anchors: 0 };
+    let index = match YamlIndex::build(ytext) {
+        Ok(i) => i,
+        Err(e) => fail!(format!("C15/alias-soundness/build-error/{}", err_shape(&e.to_string())), {"error": e.to_string(), "yaml_output": show_bytes(ytext)}),
+    };
+    let root = index.root(ytext);
+    if let YamlValue::Sequence(docs) = root.value() {
+        let mut docs = docs;
+        let mut i = 0usize;
+        while let Some((d, rest)) = docs.uncons_cursor() {
+            let mut p = vec![];
+            walk_alias(d, jvals.get(i), &mut p, &mut st, 0)?;
+            i += 1;
+            docs = rest;
+        }
+    }
+    Ok(st)
+}
+
+// ---------------------------------------------------------------- the oracle
+
+#[derive(Debug, PartialEq, Clone, Copy)]
+pub enum Outcome {
+    /// Y was read back and compared
+    Reread { aliases: u32, anchors: u32 },
+    /// some result is a root scalar (printed unwrapped): only exit statuses were compared
+    ScalarResult,
+    /// no result at all
+    NoResult,
+    /// both runs failed alike
+    BothError,
+    /// `-I 8`: both runs reported the same usage error
+    UsageError,
+    Discarded,
+}
+
+fn tmp_named(stem: &str, ext: &str, data: &[u8]) -> std::path::PathBuf {
+    let mut p = cli::tmp_file(stem).into_os_string();
+    p.push(ext);
+    let p = std::path::PathBuf::from(p);
+    std::fs::write(&p, data).expect("write temp file");
+    p
+}
+
+fn spawn(args: &[&str]) -> Option<cli::CliOut> {
+    let mut o = cli::run(args, None);
+    if o.timed_out {
+        o = cli::run(args, None);
+    }
+    if o.timed_out {
+        TIMEOUTS.fetch_add(1, Ordering::Relaxed);
+        return None;
+    }
+    Some(o)
+}
+
+fn crash_fail(route: &str, o: &cli::CliOut, case: &Case) -> Fail {
+    Fail::new(
+        format!("C15/crash/{}/{}", route, if o.signal.is_some() { format!("signal-{}", o.signal.unwrap()) } else { "exit-101".into() }),
+        json!({"route": route, "stderr": trunc(&o.stderr_str(), 600), "program": case.program, "indent": case.indent, "yaml": show_bytes(&case.yaml)}),
+    )
+}
+
+/// One evaluation of the oracle at the case's indent.
+fn check_once(case: &Case, indent: u8, st: &mut Stats) -> Result<Outcome, Fail> {
+    let doc = tmp_named("c15d", ".yaml", &case.yaml);
+    let prog = tmp_named("c15p", ".jq", case.program.as_bytes());
+    let (docs, progs) = (doc.to_string_lossy().to_string(), prog.to_string_lossy().to_string());
+    let ind = indent.to_string();
+    let cleanup = |extra: Option<&std::path::Path>| {
+        let _ = std::fs::remove_file(&doc);
+        let _ = std::fs::remove_file(&prog);
+        if let Some(e) = extra {
+            let _ = std::fs::remove_file(e);
+        }
+    };
+    let y = spawn(&["yq", "-I", &ind, "--from-file", &progs, &docs]);
+    let j = spawn(&["yq", "-o", "json", "-I0", "--from-file", &progs, &docs]);
+    st.evals(2);
+    let (y, j) = match (y, j) {
+        (Some(y), Some(j)) => (y, j),
+        _ => {
+            cleanup(None);
+            return Ok(Outcome::Discarded);
+        }
+    };
+    let detail = |extra: Value| -> Value {
+        let mut d = json!({"program": case.program, "indent": indent, "yaml": show_bytes(&case.yaml), "yaml_output": show_bytes(&y.stdout), "json_output": trunc(&j.stdout_str(), 600)});
+        if let (Some(m), Some(e)) = (d.as_object_mut(), extra.as_object()) {
+            for (k, v) in e {
+                m.insert(k.clone(), v.clone());
+            }
+        }
+        d
+    };
+    if y.crashed() {
+        cleanup(None);
+        return Err(crash_fail("yaml-run", &y, case));
+    }
+    if j.crashed() {
+        cleanup(None);
+        return Err(crash_fail("json-run", &j, case));
+    }
+    if indent > 7 {
+        // the same run with `-I 8` for the JSON side too: both must refuse alike
+        let j8 = spawn(&["yq", "-o", "json", "-I", &ind, "--from-file", &progs, &docs]);
+        cleanup(None);
+        let j8 = match j8 {
+            Some(o) => o,
+            None => return Ok(Outcome::Discarded),
+        };
+        if y.code == Some(0) || j8.code == Some(0) || y.code != j8.code || y.stderr != j8.stderr {
+            return Err(Fail::new("C15/indent-out-of-range/not-the-same-usage-error", detail(json!({"yaml_exit": y.code, "json_exit": j8.code, "yaml_stderr": err_head(&y), "json_stderr": err_head(&j8)}))));
+        }
+        return Ok(Outcome::UsageError);
+    }
+    if y.code != j.code {
+        cleanup(None);
+        return Err(Fail::new(
+            format!("C15/exit-status-differs/yaml={:?}/json={:?}", y.code, j.code),
+            detail(json!({"yaml_stderr": err_head(&y), "json_stderr": err_head(&j)})),
+        ));
+    }
+    if y.code != Some(0) {
+        cleanup(None);
+        return Ok(Outcome::BothError);
+    }
+    let jvals = match jsonval::parse_stream(&j.stdout) {
+        Ok(v) => v,
+        Err(e) => {
+            cleanup(None);
+            return Err(Fail::new("C15/json-output-unparseable", detail(json!({"error": e.msg, "offset": e.offset}))));
+        }
+    };
+    if jvals.is_empty() {
+        cleanup(None);
+        return Ok(Outcome::NoResult);
+    }
+    if jvals.iter().any(|v| !v.is_container()) {
+        cleanup(None);
+        return Ok(Outcome::ScalarResult);
+    }
+    let yf = tmp_named("c15y", ".yaml", &y.stdout);
+    let yfs = yf.to_string_lossy().to_string();
+    let r = spawn(&["yq", "-o", "json", "-I0", ".", &yfs]);
+    st.evals(1);
+    cleanup(Some(&yf));
+    let r = match r {
+        Some(r) => r,
+        None => return Ok(Outcome::Discarded),
+    };
+    if r.crashed() {
+        return Err(crash_fail("reread", &r, case));
+    }
+    if !r.ok() {
+        return Err(Fail::new(format!("C15/reread-error/{}", err_shape(&err_head(&r))), detail(json!({"reread_exit": r.code, "reread_stderr": err_head(&r)}))));
+    }
+    let rvals = match jsonval::parse_stream(&r.stdout) {
+        Ok(v) => v,
+        Err(e) => return Err(Fail::new("C15/reread-json-unparseable", detail(json!({"error": e.msg, "reread_output": trunc(&r.stdout_str(), 600)})))),
+    };
+    if rvals.len() != jvals.len() {
+        return Err(Fail::new(
+            "C15/reread-differs/document-count",
+            detail(json!({"expected_documents": jvals.len(), "actual_documents": rvals.len(), "reread_output": trunc(&r.stdout_str(), 600)})),
+        ));
+    }
+    for (i, (a, b)) in jvals.iter().zip(rvals.iter()).enumerate() {
+        if let Some(d) = diff(a, b, &mut vec![]) {
+            return Err(Fail::new(
+                format!("C15/reread-differs/{}", d.what),
+                detail(json!({"document": i, "path": d.path, "expected": d.expected, "actual": d.actual, "reread_output": trunc(&r.stdout_str(), 600)})),
+            ));
+        }
+    }
+    match alias_soundness(&y.stdout, &jvals) {
+        Ok(a) => Ok(Outcome::Reread { aliases: a.aliases, anchors: a.anchors }),
+        Err(mut f) => {
+            if let Some(m) = f.detail.as_object_mut() {
+                m.insert("program".into(), json!(case.program));
+                m.insert("indent".into(), json!(indent));
+                m.insert("yaml".into(), json!(show_bytes(&case.yaml)));
+                m.insert("yaml_output".into(), json!(show_bytes(&y.stdout)));
+            }
+            Err(f)
+        }
+    }
+}
+
+/// The oracle with the `-I 0` attribution: a case that fails at `-I 0` and passes unchanged
+/// at `-I 2` is the zero-indentation finding (its own signature), whatever the symptom.
+pub fn check_case(case: &Case, st: &mut Stats) -> Result<Outcome, Fail> {
+    match check_once(case, case.indent, st) {
+        Err(f) if case.indent == 0 && !f.sig.starts_with("C15/crash") => match check_once(case, 2, st) {
+            Ok(o) if o != Outcome::Discarded => {
+                let mut d = f.detail.clone();
+                if let Some(m) = d.as_object_mut() {
+                    m.insert("symptom_at_I0".into(), json!(f.sig));
+                    m.insert("same_case_at_I2".into(), json!("passes"));
+                }
+                Err(Fail::new(SIG_I0, d))
+            }
+            _ => Err(f),
+        },
+        r => r,
+    }
+}
+
+// ---------------------------------------------------------------- generation
+
+#[derive(Clone, Copy)]
+struct Avoid {
+    /// `-I 0` together with a write program (zero-indentation finding)
+    i0_writes: bool,
+    /// open string-quoting findings: run half of the cases with the simple string palette
+    tame_half: bool,
+}
+
+fn doc_opts(simple: bool) -> YOpts {
+    let mut o = YOpts::full();
+    o.max_docs = 2;
+    o.max_depth = 6;
+    o.max_nodes = 28;
+    o.deep_spine_16 = 0;
+    if simple {
+        o.strings = YStrings::Simple;
+    }
+    // trigger shapes of the open *loader* findings (C14): both runs would hit them alike,
+    // but the emitter echoes source presentation, so keep them out of C15's input space
+    o.avoid = gy::YAvoid {
+        empty_value_before_col0_quoted_key: true,
+        comment_after_root_anchor: true,
+        quote_inside_flow_plain: true,
+        tab_after_closing_quote: true,
+        nextline_plain_continuation_not_deeper: true,
+        literal_hash_first_then_indented: true,
+        root_block_scalar_reread: true,
+        ..gy::YAvoid::none()
+    };
+    o
+}
+
+struct Generated {
+    case: Case,
+    stream: Vec<Y>,
+    rendered: gy::RenderedYaml,
+    prog: WriteProg,
+    simple: bool,
+}
+
+fn gen_case(u: &mut Src, av: Avoid) -> Generated {
+    let simple = if av.tame_half { u.bool() } else { u.ratio(1, 8) };
+    let o = doc_opts(simple);
+    let stream = gy::gen_stream(u, &o);
+    let rendered = gy::render(&stream, u, &o);
+    let hints = yqprog::hints_of(&rendered, 0);
+    let mut prog = yqprog::gen_write(u, &stream[0], &hints);
+    if simple {
+        // the simple palette is for structure: keep program literals simple too is not
+        // needed (they are what the emitter must quote); nothing to do
+    }
+    let mut indent = match u.below(20) {
+        0 => 8u8,
+        1..=3 => 0,
+        4..=6 => 2,
+        n => (n % 8) as u8,
+    };
+    if av.i0_writes && indent == 0 && prog.is_write {
+        indent = 2 + (u.below(6) as u8);
+    }
+    if prog.text.is_empty() {
+        prog.text = ".".into();
+    }
+    Generated { case: Case { yaml: rendered.text.clone(), program: prog.text.clone(), indent }, stream, rendered, prog, simple }
+}
+
+fn classify(g: &Generated, st: &mut Stats) {
+    let s = &g.rendered.stats;
+    let special = s.anchors + s.aliases > 0 || s.literal + s.folded > 0 || s.quoted_ambiguous > 0;
+    let nt = g.prog.is_write && special && g.case.indent <= 7;
+    if nt {
+        let mut h = g.case.yaml.clone();
+        h.extend_from_slice(g.case.program.as_bytes());
+        h.push(g.case.indent);
+        st.nontrivial(hash_bytes(&h));
+    }
+    st.class_if(nt, "nontrivial");
+    st.class(&format!("indent-{}", g.case.indent));
+    st.class(if g.prog.is_write { "write-program" } else { "read-program" });
+    for t in &g.prog.tags {
+        st.class(t);
+    }
+    st.class_if(g.stream.len() > 1, "multi-document");
+    st.class_if(s.anchors > 0 && s.aliases > 0, "doc:anchor+alias");
+    st.class_if(s.literal + s.folded > 0, "doc:block-scalar");
+    st.class_if(s.quoted_ambiguous > 0, "doc:quoted-ambiguous-string");
+    st.class_if(s.has_comment(), "doc:comment");
+    st.class_if(s.flow_maps + s.flow_seqs > 0, "doc:flow-collection");
+    st.class_if(s.line_break != "LF", "doc:crlf-or-cr");
+    st.class_if(g.simple, "simple-strings");
+    st.size(g.case.yaml.len());
+    let cls = g.prog.tags.first().copied().unwrap_or("?");
+    st.sample(cls, || json!({"yaml": show_bytes(&g.case.yaml), "program": g.case.program, "indent": g.case.indent}));
+}
+
+fn describe(c: &Case) -> Value {
+    json!({"yaml_hex": hex(&c.yaml), "yaml": String::from_utf8_lossy(&c.yaml), "program": c.program, "indent": c.indent})
+}
+
+fn run_case(u: &mut Src, st: &mut Stats, av: Avoid) -> Result<(), Fail> {
+    let g = gen_case(u, av);
+    classify(&g, st);
+    st.describe(|| describe(&g.case));
+    match check_case(&g.case, st)? {
+        Outcome::Reread { aliases, anchors } => {
+            st.class("outcome:reread-compared");
+            st.class_if(aliases > 0, "output-has-alias");
+            st.class_if(anchors > 0, "output-has-anchor");
+            st.class_if(aliases > 0 && g.prog.is_write, "output-has-alias-after-write");
+        }
+        Outcome::ScalarResult => st.class("outcome:root-scalar-result"),
+        Outcome::NoResult => st.class("outcome:no-result"),
+        Outcome::BothError => st.class("outcome:both-runs-error"),
+        Outcome::UsageError => st.class("outcome:usage-error-I8"),
+        Outcome::Discarded => st.discard(),
+    }
+    Ok(())
+}
+
+fn replay_input(v: &Value) -> Option<Fail> {
+    let inp = &v["input"];
+    let yaml: Vec<u8> = match (inp["yaml"].as_str(), inp["yaml_hex"].as_str()) {
+        (_, Some(h)) => unhex(h),
+        (Some(s), None) => s.as_bytes().to_vec(),
+        _ => return Some(Fail::new("C15/replay/malformed", json!({"why": "no yaml"}))),
+    };
+    let program = match inp["program"].as_str() {
+        Some(p) => p.to_string(),
+        None => return Some(Fail::new("C15/replay/malformed", json!({"why": "no program"}))),
+    };
+    let indent = inp["indent"].as_u64().unwrap_or(2) as u8;
+    let case = Case { yaml, program, indent };
+    let mut st = Stats::default();
+    match catch(|| check_case(&case, &mut st)) {
+        Ok(Ok(_)) => None,
+        Ok(Err(f)) => Some(f),
+        Err((loc, msg)) => Some(Fail::new(format!("panic@{}", panic_sig(&loc)), json!({"panic": msg, "location": loc}))),
+    }
+}
 
 pub fn run(cx: &mut Ctx) {
-    cx.infra("check not built");
+    cx.assume("the `succinctly` binary at $VH_CLI is built from /repo's working tree (run.sh rebuilds it); the library linked into the harness is the same tree");
+    cx.assume("O-jsonval (harness JSON parser) reads the CLI's JSON output; numbers compare as doubles (documents and programs are integer-preserving, so no float spelling is involved)");
+    cx.assume("the re-read uses the repository's own loader (that is what the statement says: 'loads back'); its agreement with the YAML specification is C14's subject");
+    cx.assume("G-yaml only emits documents the repository documents as supported; shapes of the open loader findings (C14) are not generated");
+    if !cli::cli_available() {
+        cx.infra(format!("CLI binary not found at {}", cli::cli_path()));
+        return;
+    }
+    for (name, v) in cx.replays.clone() {
+        if v["kind"] == "input" {
+            let r = replay_input(&v);
+            cx.replay_outcome(&name, r);
+        }
+    }
+    let quoting_open = cx.known.iter().any(|k| k.status == "known" && (k.signature.starts_with("C15/reread-differs/str:") || k.signature.starts_with("C15/reread-differs/key:")));
+    let av = Avoid { i0_writes: cx.is_known(SIG_I0), tame_half: quoting_open };
+    if av.i0_writes {
+        cx.note("open finding: `-I 0` with a write program is not generated in `reread` (zero-indentation finding); `open-finding-shapes` generates it");
+    }
+    cx.check("reread", RULE, Budget { quick: 3_000, thorough: 150_000, max_len: 3000 }, |u, st| run_case(u, st, av));
+    for cl in [
+        "nontrivial", "write-program", "read-program", "assign", "update", "add-assign", "delete", "merge-literal", "merge-assign", "alt-assign", "pipe",
+        "identity", "navigate", "path:anchor", "path:alias", "path:through-alias", "path:block-scalar-parent", "path:new-key", "path:append",
+        "path:missing", "doc:anchor+alias", "doc:block-scalar", "doc:quoted-ambiguous-string", "doc:comment", "outcome:reread-compared",
+        "output-has-alias", "output-has-anchor", "output-has-alias-after-write", "outcome:usage-error-I8", "indent-1", "indent-3", "indent-7", "multi-document",
+    ] {
+        cx.require_class("reread", cl, 10);
+    }
+    let none = Avoid { i0_writes: false, tame_half: false };
+    cx.check(
+        "open-finding-shapes",
+        "the same search with none of C15's own open-finding shapes avoided (`-I 0` with writes, full string palette everywhere); failures with a listed signature are counted, others are violations",
+        Budget { quick: 600, thorough: 20_000, max_len: 3000 },
+        |u, st| run_case(u, st, none),
+    );
+    let t = TIMEOUTS.load(Ordering::Relaxed);
+    if t > 0 {
+        cx.note(format!("{} CLI runs hit the 20 s watchdog twice and were discarded (not violations)", t));
+    }
+    cli::cleanup();
 }
